@@ -71,6 +71,22 @@ APairNext(c, s, ap, in, o, processed) ==
   ELSE IF in.ev = "disconnect" THEN <<>>
   ELSE ap
 
+\* Which emulated key of an axis the user is holding - judged from the positions reported and the mapping in
+\* force when each was reported, never from what the device sent.  Centre zone: none.  Deflected to a side
+\* that has a note: that side.  Deflected to a side WITHOUT a note (an unsigned trigger at its released end,
+\* a stick pushed to its unassigned side): none - unless that very side was already held, from a mapping that
+\* gave it a note (the user has not let go).  Hysteresis gap 49..50 %, filtered reports, and reports while
+\* the axis does not emulate keys: unchanged.
+HeldOf(p, a) == IF a \in DOMAIN p THEN p[a].held ELSE "none"
+HeldNext(c, s, p, in, processed) ==
+  IF ~(processed /\ AxisIsType(c, s, in.a, "key")) THEN HeldOf(p, in.a)
+  ELSE LET w == WorkPos(c, s, in.a, in.raw)
+           d == DirOf(w)
+       IN IF RInCentre(w) THEN "none"
+          ELSE IF d = "pos" THEN "pos"
+          ELSE IF d = "neg" THEN (IF AxisDef(c, s, in.a).bidi \/ HeldOf(p, in.a) = "neg" THEN "neg" ELSE "none")
+          ELSE HeldOf(p, in.a)
+
 PairNext(c, pa, in, r, o) ==
   IF in.ev = "press" /\ ~IsActionKey(c, in.k) THEN
     LET ons == NoteOns(o)
@@ -103,7 +119,11 @@ StepRec(in, r, o, sg, lst) ==
     pair0 |-> pairAt, apair0 |-> apairAt,
     apair1 |-> APairNext(cfg, st, apairAt, in, o,
                          r.br \notin {"AxisUndefined", "AxisDuplicate", "AxisLearningGate"}),
-    pos1 |-> IF in.ev = "axis" THEN Put(pos, in.a, in.raw) ELSE pos,
+    pos1 |-> IF in.ev = "axis"
+               THEN Put(pos, in.a, [raw |-> in.raw,
+                                    held |-> HeldNext(cfg, st, pos, in,
+                                                      r.br \notin {"AxisUndefined", "AxisDuplicate", "AxisLearningGate"})])
+               ELSE pos,
     tx0 |-> lastTx, hap0 |-> hap ]
 
 IsKeyIn(X)     == X.in.ev \in {"press", "release"}
@@ -126,16 +146,8 @@ ShapeOf(e) == [i \in 1..Len(e) |-> <<Kind(e[i]), ChanOf(e[i]), e[i][2]>>]
 -----------------------------------------------------------------------------
 (* C01  No stuck notes                                                      *)
 
-\* A key-emulating axis is "held" while it is deflected into a direction that has a note configured
-\* (or sits in the hysteresis gap between 49 % and 50 %).  It is at rest in its centre zone and also when it is
-\* deflected towards a side WITHOUT a configured note: that is where an unsigned trigger (0 = released,
-\* mapped onto -1..1) and a stick pushed to its unassigned side are.
-AxisAtRest(c, s, a, raw) ==
-  LET w == WorkPos(c, s, a, raw)
-  IN RInCentre(w) \/ (RLeMinusHalf(w) /\ ~AxisDef(c, s, a).bidi)
-AxesAtRest(X) ==
-  \A a \in DOMAIN X.pos1 :
-     AxisIsType(X.c, X.post, a, "key") => AxisAtRest(X.c, X.post, a, X.pos1[a])
+\* every key-emulating axis is let go (HeldNext above)
+AxesAtRest(X) == \A a \in DOMAIN X.pos1 : X.pos1[a].held = "none"
 
 C01_Quiescent(X) ==
   (X.post.phase = "running" /\ X.post.held = {} /\ AxesAtRest(X)) => X.snd1 = {}
